@@ -90,6 +90,7 @@ type ChainJob struct {
 	HasV6   bool              `json:"has_v6"`
 	Iface   string            `json:"iface,omitempty"` // bound interface ("" = unbound)
 	Files   map[string]string `json:"files,omitempty"` // created under {DIR} before setup
+	Symlinks map[string]string `json:"symlinks,omitempty"` // link name -> target, both under {DIR}
 	Reqs    []ChainReq        `json:"reqs"`
 	Pre     bool              `json:"pre,omitempty"` // record the in-memory response before it is serialised
 	Synth   []SynthPlugin     `json:"synth,omitempty"`
@@ -209,7 +210,12 @@ func chainChild() {
 	dir, _ := os.MkdirTemp(os.Getenv("VERIF_CHILD_DIR"), "chain")
 	defer os.RemoveAll(dir)
 	for name, content := range job.Files {
+		os.MkdirAll(filepath.Dir(filepath.Join(dir, name)), 0o755)
 		os.WriteFile(filepath.Join(dir, name), []byte(content), 0o644)
+	}
+	for link, target := range job.Symlinks {
+		os.MkdirAll(filepath.Dir(filepath.Join(dir, link)), 0o755)
+		os.Symlink(filepath.Join(dir, target), filepath.Join(dir, link))
 	}
 	sub := func(cs []PlugConf) []config.PluginConfig {
 		var r []config.PluginConfig
